@@ -52,26 +52,34 @@ def run(ctx):
         ctx.saw_func(f)
     unsigned(ctx, repo, C, wu, ru)
     signed(ctx, repo, C, ws, rs)
-    ctx.require("uintvar/canonical", 32)
-    ctx.require("uintvar/read-inverse", 32)
-    ctx.require("sintvar/canonical", 60)
-    ctx.require("sintvar/read-inverse", 60)
+    ctx.require("uintvar/canonical", 5)
+    ctx.require("uintvar/read-inverse", 5)
+    ctx.require("sintvar/canonical", 10)
+    ctx.require("sintvar/read-inverse", 10)
 
 
 def bit_length_on_path(I, v: AInt):
-    """the bit length the path constraints give the symbolic value (position of the leading constant one), None if undetermined"""
+    """(lo, hi): the bit lengths the values on this path can have, read off the bits the path constraints have fixed
+    (leading constant zeros, then either a constant one — exact length — or a free bit — every length down to the
+    highest constant one below it)"""
     bits = I.simp_bits(v.bits)
-    top = None
     for j in range(len(bits) - 1, -1, -1):
         b = bits[j]
         if isinstance(b, F) and b.is_const:
             if b.c == 1:
-                top = j + 1
-                break
+                return (j + 1, j + 1)
             continue
-        # a free bit above every constant one: lengths j+1 and below share this path (only the all-low path: length <= 1)
-        return ("le", j + 1)
-    return top if top is not None else 0
+        lo = 0
+        for i in range(j - 1, -1, -1):
+            if isinstance(bits[i], F) and bits[i].is_const and bits[i].c == 1:
+                lo = i + 1
+                break
+        return (lo, j + 1)
+    return (0, 0)
+
+
+def cls_name(L):
+    return f"bit length {L[0]}" if L[0] == L[1] else f"bit lengths {L[0]}..{L[1]}"
 
 
 def octets(I, w):
@@ -83,11 +91,11 @@ def octets(I, w):
 
 
 def check_canonical(I, octs, L, sign_slot: bool):
-    """shortest form: number of octets, continuation bits, non-empty leading septet"""
-    need = max(1, -(-(L + (1 if sign_slot else 0)) // 7))
+    """shortest form: number of octets, continuation bits, non-empty leading septet; L = (lo, hi) bit lengths on the path"""
+    needs = sorted({max(1, -(-(l + (1 if sign_slot else 0)) // 7)) for l in range(L[0], L[1] + 1)})
     problems = []
-    if len(octs) != need:
-        problems.append(f"{len(octs)} octets written, the shortest form has {need}")
+    if needs != [len(octs)]:
+        problems.append(f"{len(octs)} octets written, the shortest form has {needs[0] if len(needs) == 1 else needs} (for the bit lengths of this path)")
     cont = [bits_const(I, [o[0]]) for o in octs]
     want = [[1]] * (len(octs) - 1) + [[0]]
     if cont != want:
@@ -101,6 +109,7 @@ def check_canonical(I, octs, L, sign_slot: bool):
 
 def unsigned(ctx, repo, C, wu, ru):
     I = Interp(repo)
+    I.exact_ordering = True
 
     def run(st):
         I.st = st
@@ -126,11 +135,10 @@ def unsigned(ctx, repo, C, wu, ru):
             raise AnalysisError(f"write/read_uintvar: {val}")
         v, octs, back = val
         L = bit_length_on_path(I, v)
-        key = f"bit length {L if not isinstance(L, tuple) else '0..' + str(L[1])}"
-        seen[key] = seen.get(key, 0) + 1
-        Lnum = L[1] if isinstance(L, tuple) else L
-        prob = check_canonical(I, octs, Lnum, False)
-        ctx.ob("uintvar/canonical", key, not prob, "; ".join(prob) or f"{len(octs)} octet(s) for all {('2' if isinstance(L, tuple) else str(2 ** max(Lnum - 1, 0)))} values", wu.loc)
+        key = cls_name(L) + (f" [path {len(seen)}]" if cls_name(L) in seen else "")
+        seen[key] = L
+        prob = check_canonical(I, octs, L, False)
+        ctx.ob("uintvar/canonical", key, not prob, "; ".join(prob) or f"{len(octs)} octet(s) for every value of the class", wu.loc)
         bad = []
         if not (isinstance(back, tuple) and len(back) == 2):
             bad.append(f"reader returns {back!r}")
@@ -147,8 +155,11 @@ def unsigned(ctx, repo, C, wu, ru):
                 if diff:
                     bad.append(f"value bits {diff[:6]} differ")
         ctx.ob("uintvar/read-inverse", key, not bad, "; ".join(bad) or "value and index restored; prefix / trailer octets not consumed", ru.loc)
-    lens = sorted(seen)
-    ctx.ob("coverage/bit-lengths", "uintvar", len(seen) == 32 and all(n == 1 for n in seen.values()), f"{len(seen)} length classes: 0..1 and 2..32, one path each" if len(seen) == 32 else f"classes reached: {lens}", wu.loc)
+    covered = set()
+    for lo, hi in seen.values():
+        covered |= set(range(lo, hi + 1))
+    missing = sorted(set(range(0, 33)) - covered)
+    ctx.ob("coverage/bit-lengths", "uintvar", not missing, f"{len(seen)} path classes cover every bit length 0..32" if not missing else f"bit lengths reached by no analysed path: {missing}", wu.loc)
     # out of range
     I2 = Interp(repo)
 
@@ -173,6 +184,7 @@ def signed(ctx, repo, C, ws, rs):
     seen = {}
     for negative in (False, True):
         I = Interp(repo)
+        I.exact_ordering = True
 
         def run(st, negative=negative):
             I.st = st
@@ -211,10 +223,11 @@ def signed(ctx, repo, C, ws, rs):
                 raise AnalysisError(f"write/read_sintvar: {val}")
             mag, octs, back = val
             L = bit_length_on_path(I, mag)
-            Lnum = L[1] if isinstance(L, tuple) else L
-            key = f"{'negative' if negative else 'non-negative'}, magnitude bit length {L if not isinstance(L, tuple) else '0..' + str(L[1])}"
-            seen[key] = seen.get(key, 0) + 1
-            prob = check_canonical(I, octs, Lnum, True)
+            key = f"{'negative' if negative else 'non-negative'}, magnitude {cls_name(L)}"
+            if key in seen:
+                key += f" [path {len(seen)}]"
+            seen[key] = (negative, L)
+            prob = check_canonical(I, octs, L, True)
             sb = bits_const(I, [octs[0][1]])
             if sb != [1 if negative else 0]:
                 prob.append(f"sign bit (bit 6 of the first octet) is {sb}, value is {'negative' if negative else 'non-negative'}")
@@ -241,8 +254,14 @@ def signed(ctx, repo, C, ws, rs):
                     if diff:
                         bad.append(f"magnitude bits {diff[:6]} differ")
             ctx.ob("sintvar/read-inverse", key, not bad, "; ".join(bad) or "value, sign and index restored", rs.loc)
-    ctx.ob("coverage/bit-lengths", "sintvar", len(seen) == 31 + 31 and all(n == 1 for n in seen.values()),
-           f"{len(seen)} (sign, length) classes, one path each" if len(seen) == 62 else f"{len(seen)} classes: {sorted(seen)[:6]}...", ws.loc)
+    missing = []
+    for neg in (False, True):
+        cov = set()
+        for ng, (lo, hi) in seen.values():
+            if ng == neg:
+                cov |= set(range(lo, hi + 1))
+        missing += [f"{'-' if neg else '+'}{l}" for l in sorted(set(range(1 if neg else 0, 32)) - cov)]
+    ctx.ob("coverage/bit-lengths", "sintvar", not missing, f"{len(seen)} path classes cover every magnitude bit length 0..31 for both signs" if not missing else f"(sign, bit length) reached by no analysed path: {missing}", ws.loc)
     I2 = Interp(repo)
 
     def run_big(st):
